@@ -339,7 +339,28 @@ func c10Oracle(c c10Case) error {
 		return check(c.C, c.Mode)
 	}
 	var inside int64
+	// Every offset of ordinary streams; for very long ones (lines crossing the 16 KiB buffer)
+	// every 13th offset plus everything near a line boundary and near a buffer boundary.
+	take := func(off int) bool {
+		if len(ctx.x) <= 6000 || off%13 == 0 || len(ctx.x)-off < 4 {
+			return true
+		}
+		if m := off % 16384; m <= 3 || m >= 16381 {
+			return true
+		}
+		for d := -3; d <= 3; d++ {
+			if o := off + d; o > 0 && o <= len(ctx.x) && ctx.x[o-1] == '\n' {
+				return true
+			}
+		}
+		return false
+	}
+	var visited int64
 	for off := 0; off <= len(ctx.x); off++ {
+		if !take(off) {
+			continue
+		}
+		visited++
 		for mode := 0; mode < 4; mode++ {
 			if e := check(off, mode); e != nil {
 				return e
@@ -349,7 +370,7 @@ func c10Oracle(c c10Case) error {
 			inside += 4
 		}
 	}
-	st.count(int64(len(ctx.x)+1)*4, inside)
+	st.count(visited*4, inside)
 	return nil
 }
 
@@ -389,6 +410,6 @@ func init() { register(c10.key(), c10.Oracle) }
 
 func TestC10(t *testing.T) {
 	c := c10
-	c.Checks = n(25, 400)
+	c.Checks = n(25, 150)
 	c.Run(t)
 }
